@@ -295,12 +295,21 @@ pub fn run(ctx: &Ctx) -> Report {
         // every background colour the driver accepts (the fill count may sit in a per-colour branch)
         let mut combos: Vec<(K, u32)> = (0..spec.color.count()).map(|c| (K::Clear, c)).collect();
         combos.extend((0..spec.color.count()).map(|c| (K::UpdateFrame, c)));
+        // panel-specific whole-plane writers outside the common trait
+        for k in [K::Show7Block, K::ClearAchromatic, K::ClearChromatic] {
+            if spec.has(k) {
+                combos.extend((0..spec.color.count()).map(|c| (k, c)));
+            }
+        }
         for (k, bg) in combos {
             rep.eval(spec.name);
             let mut rig = Rig::simple(spec);
             let _ = rig.apply(&Op::arg(K::SetBg, bg));
             let c0 = rig.board.borrow().chip().cmds.len();
-            let op = if k == K::Clear { Op::new(K::Clear) } else { frame_op(spec, K::UpdateFrame, 0xF111) };
+            let op = match k {
+                K::UpdateFrame => frame_op(spec, K::UpdateFrame, 0xF111),
+                other => Op::new(other),
+            };
             let o = rig.apply(&op);
             if !o.is_ok() {
                 rep.count("ops_failing_for_other_reasons", 1);
